@@ -466,8 +466,8 @@ fn build(thorough: bool) -> Vec<Doc> {
     if t {
         docs.push(make_doc(Format::Sam, "sam-full-crlf", "full", to_crlf(&write_sam_plain(a("full"))), false));
     }
-    let q_cram: &[(&str, usize)] = &[("mapped", 2), ("full", 3)];
-    let t_cram: &[(&str, usize)] = &[("mapped", 2), ("full", 3), ("empty", 2), ("paired", 2), ("mapped", 3), ("full", 2)];
+    let q_cram: &[(&str, usize)] = &[("mapped", 3), ("full", 3), ("paired", 3)];
+    let t_cram: &[(&str, usize)] = &[("mapped", 3), ("full", 3), ("paired", 3), ("empty", 2), ("mapped", 2), ("full", 2)];
     for (s, rps) in if t { t_cram } else { q_cram } {
         docs.push(make_doc(Format::Cram, format!("cram-{s}-rps{rps}"), s, write_cram(a(s), *rps), false));
     }
